@@ -51,6 +51,8 @@ CallsFor(kind, n, d) ==
   \cup (IF kind = "array" THEN {<<"del_atom", <<i>>>> : i \in (-n-1)..n} ELSE {})
   \cup (IF kind = "stack" THEN {<<"del_model", <<i>>>> : i \in (-d-1)..d} ELSE {})
   \cup (IF kind = "array" THEN {<<"set_atom", <<i, 90, 7, 123456>>>> : i \in (-n-1)..n} ELSE {})
+  \cup (IF kind = "array" THEN {<<"swap_atoms", <<i, j>>>> : i \in (-n)..n, j \in 0..(n-1)}
+                                \cup {<<"take_then_overwrite", <<i, 91, 3, 654321>>>> : i \in (-n-1)..n} ELSE {})
   \cup (IF kind = "stack" THEN {<<"set_model", <<i, j, 5>>>> : i \in (-d)..(d-1), j \in 0..(d-1)} ELSE {})
   \cup {<<"set_annot", <<[i \in 1..n |-> 40 - i]>>>>, <<"set_annot", <<[i \in 1..(n+1) |-> 5]>>>>}
   \cup {<<"add_extra", <<"flag">>>>, <<"add_extra", <<"label">>>>, <<"del_extra", <<"flag">>>>,
